@@ -614,7 +614,7 @@ def classify_line(text):
         return ("O", "associate", "", None)
     if re.match(r"else\s*where\b", low):
         return ("S", "elsw")
-    if re.match(r"else\b", low):
+    if re.match(r"else\s*if\s*\(|else\b", low):
         return ("S", "els")
     if re.match(r"(case\b|type\s+is\b|class\s+is\b|class\s+default\b)", low):
         return ("S", "cas")
